@@ -10,7 +10,7 @@ SEMANTIC = (
     'assertion failed', 'possible arithmetic underflow/overflow', 'possible division by zero',
     'possible bit shift underflow/overflow', 'decreases not satisfied', 'index out of bounds',
     'loop invariant not satisfied', 'assertion not satisfied', 'possible truncation',
-    'cannot show invariant', 'could not prove termination', 'call to unreached',
+    'cannot show invariant', 'could not prove termination', 'call to unreached', 'precondition not met',
 )
 UNDECIDED = ('Resource limit (rlimit) exceeded', 'rlimit exceeded', 'timed out', 'solver')
 
@@ -86,6 +86,9 @@ def classify(msg):
     return 'other'
 
 
+DEFAULT_RLIMIT = 30   # 3x Verus' default budget: a proof that drifts near the default limit must not turn into 'undecided' on the unchanged tree
+
+
 def run_unit(unit_name, rlimit=None, extra_args=()):
     """Generate build/<unit>.rs from specs/<unit>.vspec and /repo, run Verus, return a result dict."""
     os.makedirs(BUILD, exist_ok=True)
@@ -106,7 +109,8 @@ def run_unit(unit_name, rlimit=None, extra_args=()):
     res['notes'] = list(unit.notes)
     res['assumed'] = list(unit.assumed)
     res['sources'] = sorted(unit.sources)
-    sha = hashlib.sha256((unit.text + repr(rlimit) + repr(extra_args)).encode()).hexdigest()[:20]
+    rlimit = rlimit or DEFAULT_RLIMIT
+    sha = hashlib.sha256((unit.text + repr(rlimit) + repr(extra_args) + repr(SEMANTIC) + repr(UNDECIDED)).encode()).hexdigest()[:20]
     cpath = os.path.join(BUILD, 'cache', 'verus_%s_%s.pickle' % (unit_name, sha))
     if os.environ.get('VERIF_NO_CACHE') != '1' and os.path.exists(cpath):
         try:
